@@ -65,8 +65,12 @@ class MafWriter(object):
             self._sorter = None
         else:
             self._checker = None
+            # sort with the very order the header declares, contig list included,
+            # so that the file obeys its own sort.order / contigs pragmas
             self._sorter = MafSorter(
-                sort_order_name=self._header.sort_order().name(), scheme=self._scheme  # type: ignore
+                sort_order_name=self._header.sort_order().name(),  # type: ignore
+                scheme=self._scheme,
+                contigs=self._header.contigs(),
             )
 
     def header(self) -> MafHeader:
